@@ -109,7 +109,7 @@ class Ctx:
     # -- end --------------------------------------------------------------
     def finish(self) -> int:
         wall = time.time() - self.t0
-        rdir = os.path.join(VERIF, "replays", self.prop)
+        rdir = os.path.join(VERIF, "replays" if not os.environ.get("VERIF_NO_EVIDENCE") else "replays/_mutants", self.prop)
         seen = set()
         lines = []
         for v in self.violations:
@@ -148,9 +148,10 @@ class Ctx:
             "wall_s": round(wall, 2),
             "violations": len(seen),
         }
-        os.makedirs(os.path.join(VERIF, "evidence"), exist_ok=True)
-        with open(os.path.join(VERIF, "evidence", f"{self.prop}.json"), "w", encoding="utf-8") as f:
-            json.dump(ev, f, indent=1, default=str)
+        if not os.environ.get("VERIF_NO_EVIDENCE"):
+            os.makedirs(os.path.join(VERIF, "evidence"), exist_ok=True)
+            with open(os.path.join(VERIF, "evidence", f"{self.prop}.json"), "w", encoding="utf-8") as f:
+                json.dump(ev, f, indent=1, default=str)
         for line in lines:
             print(line)
         print(f"[{self.prop}] tier={self.tier} seed={self.seed} states={cov['states']} transitions={cov['transitions']} "
